@@ -164,11 +164,90 @@ fn refuse_oracle(case: &RefuseCase, obs: &mut Obs) -> Result<(), Fail> {
 	}
 }
 
+// ---------------------------------------------------------------------------------------
+// PMTiles: tile counts around the point where the root directory stops fitting into the
+// first 16 KiB and leaf directories are introduced
+// ---------------------------------------------------------------------------------------
+
+#[derive(Clone, Debug, Serialize, Deserialize)]
+struct RootCase {
+	seed: u32,
+	n: u32,
+}
+
+/// the first `n` tiles of a fixed pseudo-random sparse sequence at zoom 11 with irregular sizes
+/// (a directory that compresses badly)
+fn root_set(seed: u32, n: u32) -> (vt::model::TileSet, SetSpec) {
+	let mut mix = vt::model::Mix::new(0x5EED ^ ((seed as u64) << 20));
+	let mut tiles = std::collections::BTreeMap::new();
+	let spread = 4 + (seed % 4) as u64;
+	while (tiles.len() as u32) < n {
+		let c = vt::model::Coord::new(11, mix.below(2048) as u32, mix.below(2048 / spread) as u32);
+		let len = 1 + mix.below(if seed % 2 == 0 { 300 } else { 40 }) as usize;
+		tiles.entry(c).or_insert_with(|| {
+			let mut v = format!("{c}|").into_bytes();
+			v.resize(len.max(v.len()), b'x');
+			v
+		});
+	}
+	let mut set = vt::model::TileSet { format: Fmt::Png, comp: Comp::None, raw: tiles.clone(), tiles, pyramid: Default::default(), meta: None };
+	set.pyramid = set.all_boxes();
+	let spec = SetSpec { tag: "root".into(), levels: vec![], pay: vt::model::Pay::CoordText, format: Fmt::Png, comp: Comp::None, really_compressed: false, advert: vt::model::Advert::Tight, meta: None };
+	(set, spec)
+}
+
+/// length of the leaf directory section according to the header of a PMTiles file
+fn leaf_section_len(path: &std::path::Path) -> Option<u64> {
+	let b = std::fs::read(path).ok()?;
+	if b.len() < 127 || &b[..7] != b"PMTiles" {
+		return None;
+	}
+	Some(u64::from_le_bytes(b[48..56].try_into().ok()?))
+}
+
+fn root_oracle(case: &RootCase, obs: &mut Obs) -> Result<(), Fail> {
+	let (set, spec) = root_set(case.seed, case.n);
+	let path = Target::Pmtiles.fresh_path();
+	let _g = TmpGuard(path.clone());
+	let mut src = mem_reader(&set, false);
+	write_with_repo(&mut src, &path)?;
+	let leaves = leaf_section_len(&path).unwrap_or(0) > 0;
+	check_container(Target::Pmtiles, &path, &set, &spec, obs, &format!("pmtiles with {} sparse tiles ({})", case.n, if leaves { "leaf directories" } else { "root directory only" }), false)?;
+	obs.label(if leaves { "layout:leaf-directories" } else { "layout:root-only" });
+	obs.nontrivial(true);
+	Ok(())
+}
+
+/// smallest tile count of the family at which the writer introduces leaf directories
+fn root_switch(seed: u32) -> Option<u32> {
+	let has_leaves = |n: u32| -> Option<bool> {
+		let (set, _) = root_set(seed, n);
+		let path = Target::Pmtiles.fresh_path();
+		let _g = TmpGuard(path.clone());
+		let mut src = mem_reader(&set, false);
+		write_with_repo(&mut src, &path).ok()?;
+		Some(leaf_section_len(&path)? > 0)
+	};
+	let (mut lo, mut hi) = (200u32, 16_500u32);
+	if has_leaves(lo)? || !has_leaves(hi)? {
+		return None;
+	}
+	while hi - lo > 1 {
+		let mid = (lo + hi) / 2;
+		if has_leaves(mid)? {
+			hi = mid;
+		} else {
+			lo = mid;
+		}
+	}
+	Some(hi)
+}
+
 fn main() {
 	let mut check = Check::from_args(
 		"C01",
 		"exploration",
-		"proptest tile-set specs (1-3 levels placed at level origin / maximum / across 256-block borders, shapes dense/sparse/diamond/anti-diagonal/off-centre/corners, payload classes incl. duplicates, 998..1001-byte sizes, 70 KiB, some empty) x target format x every (format, compression) pair the target expresses x tight/loose/full advertised pyramid x optional second conversion; oracle = lookups through the repository reader over all model tiles + probe coordinates, and an independent decoder of the written file; non-trivial = >= 2 distinct payloads and (crosses a block border | zoom gap | duplicates < 1000 bytes | >= 16385 tiles | sparse); distinct = distinct serialised cases",
+		"proptest tile-set specs (1-3 levels placed at level origin / maximum / across 256-block borders, shapes dense/sparse/diamond/anti-diagonal/off-centre/corners, payload classes incl. duplicates, 998..1001-byte sizes, 70 KiB, some empty) x target format x every (format, compression) pair the target expresses x tight/loose/full advertised pyramid x optional second conversion; plus, for PMTiles, every tile count around the count at which the root directory no longer fits the first 16 KiB (families of sparse tiles with irregular sizes, switch found by bisection); oracle = lookups through the repository reader over all model tiles + probe coordinates, and an independent decoder of the written file; non-trivial = >= 2 distinct payloads and (crosses a block border | zoom gap | duplicates < 1000 bytes | >= 16385 tiles | sparse); distinct = distinct serialised cases",
 	);
 	check.assume("independent decoders implement DESIGN.md Appendix A; flate2, brotli, rusqlite are trusted for the generic layers");
 	check.assume("empty tile sets and empty payloads are outside the asserted domain");
@@ -185,6 +264,19 @@ fn main() {
 			check.phase(&format!("big-{}", t.name()), check.cases(3, 48), || strategy(t, true).prop_filter("big", |c| c.spec.levels.iter().any(|l| l.w >= 130)), oracle);
 		}
 	}
+	// PMTiles around the root-directory limit: every tile count from 110 below to 6 above the
+	// count at which the writer switches to leaf directories (found by bisection), per family
+	let mut root_cases = vec![];
+	for seed in 0..check.cases(2, 12) as u32 {
+		let seed = seed + 16 * check.seed as u32;
+		match root_switch(seed) {
+			Some(sw) => root_cases.extend((sw.saturating_sub(110)..sw + 6).map(|n| RootCase { seed, n })),
+			// no switch found (writer failing or never using leaves): the extremes are still checked
+			None => root_cases.extend([200u32, 3000, 16_500].map(|n| RootCase { seed, n })),
+		}
+	}
+	check.enumerate("pmtiles-root-limit", root_cases, false, root_oracle);
+
 	// pairs MBTiles cannot express
 	let others: Vec<_> = gen::all_pairs().into_iter().filter(|(f, c)| !Target::Mbtiles.accepts(*f, *c)).collect();
 	check.phase(
